@@ -61,4 +61,26 @@ CHECKS["C20"] = {
     "text": "kernels.h and the four shapeset headers are parsed, a wrapper per function is generated and compiled as OpenCL C for x86-64 with -fsanitize=address,undefined for both precisions, linked with C++ shims for the OpenCL builtins; every one of the 56 functions (12 kernel families x novec/vec4/vec8/vec16, diff_vec*, shapesets) is run on random point pairs at distances 1e-3..1e3 and wavenumbers real/complex/imaginary/zero and compared, lane by lane, with the Numba kernel the repository's own tables pair it with (and the FMM helper for the gradient), tolerance 640 eps (1+|k|r) (observed <= 6 units). Any sanitizer report fails the run.",
     "note": "Builtins are libm at the type's precision, not a GPU's native_*; far-field kernels use Re k in both backends (C08's matter).",
 }
+
+CHECKS["C03"] = {
+    "technique": "metamorphic monitor over group actions with measured signed permutations; class-complete adjacency family; singular-order convergence",
+    "text": "Each operator family / space pair is assembled on a grid and on its image under rigid motions (incl. translation by 1000 diameters), scalings (k -> k/s), vertex+element renumbering, cyclic local rotations and physically reversed orientation in place of a swapped-normals flag. The signed permutations relating the two spaces are measured by evaluating both bases at the same physical points (and must be signed permutations); A(m) = s^-h P_test' A(m') P_trial is demanded to rounding for motions/scalings and for the regular part under relabelling, and up to singular-quadrature error (convergence in the singular order) for the full matrix. A family of two-element grids realises all 18 edge and 9 vertex adjacency classes (coverage obligation).",
+    "note": "Uses space.evaluate on both grids to measure the permutations (C09/C13 check evaluate itself). Rounding tolerance 1e-10 (1e-6 for the far translation).",
+}
+CHECKS["C05"] = {
+    "technique": "entrywise analytic bound monitor + differential monitors between operator families + symmetry convergence",
+    "text": "For |k|D <= 1 (real, imaginary, complex k) the Helmholtz single/double/adjoint double layer matrices are compared entrywise with the Laplace ones plus ik/(4pi) m m' against the bounds the property states, with m-hat computed from the library's nodes with absolute weights (so rules with negative weights cannot cause a false alarm; analytic constants e-2 and 1 leave slack). Helmholtz(i w) must equal modified Helmholtz(w) to 1e-12 for boundary and potential operators, also for a vanishing real part; A(-conj k) = conj A(k) to 1e-12; V, W complex-symmetric and K' = K^T decided by convergence in the singular order.",
+    "note": "D is the exact diameter of the vertex set. Segment/support spaces included.",
+}
+CHECKS["C08"] = {
+    "technique": "reference-model monitor (closed-form kernel sums) + finite-difference PDE residual with Richardson extrapolation + limit/phase monitors",
+    "text": "Every potential and far-field operator (Laplace, Helmholtz, modified Helmholtz SL/DL; Maxwell E/H; all accepted space kinds incl. segments; real and complex densities and wavenumbers) is compared to 1e-11 with the kernel sum over the library's nodes computed from reference kernels and reference shape functions (observed 3e-15). PDE residuals are formed with 7-point / central stencils at h and h/2 and Richardson-extrapolated to h=0 (a residual that does not vanish with h survives); curl H = -ikE and div E = 0 are decided by convergence in the regular order. Far fields are compared with the Richardson limit of r exp(-ikr) u(r x) and with the translation law.",
+    "note": "Known finding: far-field kernels ignore Im k (recorded by mechanism, real k fully checked).",
+}
+CHECKS["C17"] = {
+    "technique": "backend substitution (exact-summation exafmm stand-in) + differential monitor FMM vs dense + interpreted replay of bounds-unchecked point-map kernels + sanitizer-build replay",
+    "text": "The exafmm package is replaced by vlib/fake_exafmm (exact O(NM) summation of the same point sources, written independently), so all of bempp-cl's FMM glue runs; every boundary operator (4 scalar ops x 3 families, Maxwell E/H) and potential created with assembler='fmm' is applied to random real/complex vectors and compared to 1e-10 with the dense assembler on whole-grid, segment and dual-grid spaces, same and different grids, both near-field representations and several global orders (observed 1e-15). For partial supports the JIT point-map builders are replayed interpreted so that an index slip raises instead of corrupting memory.",
+    "note": "The FMM evaluators read the global quadrature order; the dense reference uses the same global order (the coupling itself is C18's matter). The shipped reference vectors (tolerance 2e-3 with a real FMM) are not replayed: an exact backend makes them redundant.",
+}
+
 NOT_APPLICABLE = {}
